@@ -234,10 +234,15 @@ def _run_limiter(params: dict) -> dict:
 
     async def main():
         settings = Settings(credentials=CredentialsSettings(username='x', password='y'))
+        # the other direction has a limit of its own; a value loaded for this direction may coincide with it
+        orng = random.Random(f"{params['seed']}:C20:other:{params['i']}")
+        other_lim = orng.choice(LIMITS + [0])
         if direction == 'upload':
             settings.network.limits.upload_speed_kbps = lim0
+            settings.network.limits.download_speed_kbps = other_lim
         else:
             settings.network.limits.download_speed_kbps = lim0
+            settings.network.limits.upload_speed_kbps = other_lim
         net = Network(settings, EventBus())
         conns = []
         for k in range(n_cons):
@@ -303,6 +308,9 @@ def _run_limiter(params: dict) -> dict:
                     new = old
                 else:
                     new = rng.choice(LIMITS + [0])
+                    if orng.random() < 0.5 and other_lim != old:
+                        new = other_lim          # coincides with the limit of the other direction
+                        runner.add_obs(res, 'loaded_limit_equal_to_other_direction')
                 cur['kbps'] = new
                 if how == 'load':
                     if direction == 'upload':
